@@ -139,7 +139,9 @@ fn number_fits(query: &str) -> bool {
 pub fn c13(rng: &mut Rng, thorough: bool, idx: u64) -> Spec {
     let nshards = rng.range(1, 4) as usize;
     let replicas = rng.range(0, 1) as usize;
-    let mut cfg = sharded_pool("transaction", rng.range(1, 3) as u32, nshards, replicas);
+    // every eleventh run in session mode (a client that has run something holds its server)
+    let session = idx % 11 == 7 && idx % 3 != 2 && idx % 5 != 1;
+    let mut cfg = sharded_pool(if session { "session" } else { "transaction" }, if session { 4 } else { rng.range(1, 3) as u32 }, nshards, replicas);
     cfg.set("connect_timeout", 1500);
     cfg.set("ban_time", 1);
     cfg.pools[0].sharding_function = rng.pick(&["pg_bigint_hash", "sha1"]).to_string();
